@@ -40,7 +40,7 @@ def gen_cases(tier, seed):
             else:
                 spec.append({"p": p, "k": "f", "size": {"empty": 0, "tiny": 1, "multi": r.choice([70000, 200001])}[kind], "seed": r.randrange(1, 1 << 30), "segs": None})
         yield {"spec": spec, "driver": driver, "mode": mode, "answer": ans, "okfiles": sorted(r.sample(range(nf), r.randint(1, nf))) if ans == "mixed" else None,
-               "args": ["--driver", driver, "-w", str(r.choice([1, 2, 4])), "--block-size", "32KB", "--reflink", r.choice([mode, mode, mode.upper(), mode.capitalize()]), "-r", "src", "dst"],
+               "args": ["--driver", driver, "-w", str(r.choice([0, 1, 2, 4])), "--block-size", "32KB", "--reflink", r.choice([mode, mode, mode.upper(), mode.capitalize()]), "-r", "src", "dst"],
                "fs": "tmpfs" if r.random() < 0.2 else "ext4", "sched": r.choice(["free", "pct"]), "sseed": r.randrange(1 << 30)}
 
 
